@@ -542,7 +542,7 @@ def work(exes, family, start, n, owner):
 
 def run_families(res, exes, tier, owner):
     fams = FAMILIES.get(owner, [])
-    total = 800 if tier == "quick" else 6000
+    total = 800 if tier == "quick" else 20000
     per = 10 if tier == "quick" else 25
     for fam in fams:
         if fam == "examples":
